@@ -2,7 +2,7 @@
 recursive file-system snapshots around every invocation, measures which template files the two generators' environments
 load and which DSDL files the generated types transitively depend on, and probes influence by editing one input at a time.
 
-stdin : JSON {work, files{rel: text}, copies[{from (relative to <repo>/src/nunavut/lang), to, skip[]}], args[...], root, lookups[...],
+stdin : JSON {work, files{rel: text}, appends{rel: text appended after copies/files}, copies[{from (relative to <repo>/src/nunavut/lang), to, skip[]}], args[...], root, lookups[...],
               probes[{id, path (relative to work), text | append}], want_trace}
 stdout: 'RESULT' + JSON
 The harness itself never writes outside `work`.
@@ -140,6 +140,9 @@ def main():
         p = os.path.join(work, rel)
         os.makedirs(os.path.dirname(p), exist_ok=True)
         with open(p, 'w', encoding='utf-8') as f:
+            f.write(text)
+    for rel, text in job.get('appends', {}).items():
+        with open(os.path.join(work, rel), 'a', encoding='utf-8') as f:
             f.write(text)
     # inventories of the custom template directories (what a loader can see)
     inventories = {}
